@@ -729,6 +729,10 @@ func (e *c02Env) part2(version uint, mode CompressionMode, scripts [][]string, w
 	}
 }
 
+// TestVerif_C02Build does nothing: props/C02.py runs it while TLC works, so that the packages of the test binary
+// are compiled (build cache) by the time the fault scripts exist.
+func TestVerif_C02Build(t *testing.T) {}
+
 func TestVerif_C02(t *testing.T) {
 	res := kit.NewResult("one case = one object saved on a healthy store (blob size x content class x type x repository configuration; unpacked files), one stored file checked against its name (and every blob in it against its id), or one read (API x target x TLC-enumerated fault script x cache state); distinct by those coordinates; all are non-trivial except the config file")
 	recs := kit.NewNDJSON("recs.ndjson")
